@@ -374,3 +374,102 @@ func FamEnumRace(seed int64) SysRecord {
 	rec.Events = w.Events()
 	return rec
 }
+
+// ---- C13: a handler of link 0 relays over link 1 with its request's context; link 0 is cancelled ----
+func FamRelay[T any](c Codec[T], seed int64) SysRecord {
+	rec := SysRecord{Family: "relay", Config: c.Name + "/mixed", Seed: seed}
+	w := newWorld()
+	hub := NewSysNode[T](w, "H")
+	n := 2
+	spokes := make([]*SysNode[T], n)
+	links := make([]*SysLink[T], n)
+	hubRem := make([]sysRemote, n) // the hub's stub for spoke i
+	for i := range spokes {
+		spokes[i] = NewSysNode[T](w, fmt.Sprintf("S%d", i))
+		before := hub.Remotes()
+		links[i] = Connect(w, hub, spokes[i], c, (seed+int64(i))%2 == 0, -1, seed+int64(i))
+		if !WaitRemotes(hub, i+1) || !WaitRemotes(spokes[i], 1) {
+			rec.Notes = append(rec.Notes, "link did not come up")
+			return rec
+		}
+		for id, r := range hub.Remotes() {
+			if _, ok := before[id]; !ok {
+				hubRem[i] = r
+			}
+		}
+	}
+	spokeRem := func(i int) sysRemote {
+		for _, r := range spokes[i].Remotes() {
+			return r
+		}
+		return sysRemote{}
+	}
+	w.mu.Lock()
+	w.relay = func() (sysRemote, bool) { return hubRem[1], true }
+	w.mu.Unlock()
+	ctx, cancel := context.WithTimeout(context.Background(), 20*time.Second)
+	defer cancel()
+	var mu sync.Mutex
+	add := func(cl SysCall) { mu.Lock(); rec.Calls = append(rec.Calls, cl); mu.Unlock() }
+	var wg sync.WaitGroup
+	// calls in flight on link 1 in both directions
+	wg.Add(2)
+	go func() {
+		defer wg.Done()
+		v, err := spokeRem(1).Gate(ctx, 801)
+		add(SysCall{Tag: 801, From: "S1", Method: "InFlightOnOtherLink", Ret: canon(v), Err: errText(err), Done: true})
+	}()
+	go func() {
+		defer wg.Done()
+		v, err := hubRem[1].Gate(ctx, 802)
+		add(SysCall{Tag: 802, From: "H", Method: "InFlightOnOtherLink", Ret: canon(v), Err: errText(err), Done: true})
+	}()
+	// spoke 0 asks the hub to relay: the hub's handler calls spoke 1 with the handler's context
+	relayDone := make(chan SysCall, 1)
+	go func() {
+		v, err := spokeRem(0).Relay(ctx, 800)
+		relayDone <- SysCall{Tag: 800, From: "S0", Method: "RelayCaller", Ret: canon(v), Err: errText(err), Done: true}
+	}()
+	if !waitUntil(func() bool { return hasInv(w, "Gate", 801) && hasInv(w, "Gate", 802) && hasInv(w, "Gate", 803) }, 4*time.Second) {
+		rec.Notes = append(rec.Notes, "the calls did not all reach their handlers")
+	}
+	// link 0 ends on the hub's side (its context is cancelled): the relayed call is aborted
+	links[0].CancelA()
+	links[0].CloseTransport(errors.New("transport closed"))
+	if !waitUntil(func() bool { return hasRet(w, "Relay", 800) }, 3*time.Second) {
+		rec.Notes = append(rec.Notes, "the relayed call (made with the context of a request of the cancelled link) did not return")
+	}
+	select {
+	case cl := <-relayDone:
+		add(cl)
+	case <-time.After(3 * time.Second):
+		add(SysCall{Tag: 800, From: "S0", Method: "RelayCaller", Err: "DID-NOT-RETURN"})
+	}
+	// link 1 is unaffected: new calls work in both directions, the calls in flight complete
+	for k, rem := range []sysRemote{spokeRem(1), hubRem[1]} {
+		pctx, pcancel := context.WithTimeout(ctx, 3*time.Second)
+		v, err := rem.EchoInt(pctx, 810+k, 42)
+		pcancel()
+		add(SysCall{Tag: 810 + k, From: []string{"S1", "H"}[k], Method: "ProbeOtherLink", Ret: canon(v), Err: errText(err), Done: true})
+	}
+	for _, g := range []int{801, 802, 803} {
+		close(w.gate(g))
+	}
+	if !waitAll(&wg, 5*time.Second) {
+		rec.Hang = true
+	}
+	for i, l := range links {
+		l.CancelA()
+		l.CancelB()
+		l.CloseTransport(errors.New("transport closed"))
+		for _, e := range []chan error{l.ErrA, l.ErrB} {
+			select {
+			case <-e:
+			case <-time.After(5 * time.Second):
+				rec.Notes = append(rec.Notes, fmt.Sprintf("link %d did not return", i))
+			}
+		}
+	}
+	rec.Events = w.Events()
+	return rec
+}
